@@ -30,7 +30,11 @@ CLAIMED.update({
         "because every read of the retained history returns the last record whatever lastclear and the scratch layout are. The model is "
         "validated on every run against real MH/PT samplers (observations after every operation), and the property itself is checked on the "
         "same real traces against an identically seeded uninterrupted twin. The swap-history VIEW is refuted in Coq and reported as a known finding.",
-   note=MACH_NOTE, technique="Coq proof (history invariant + ghost-state simulation by induction over op lists) + vm_compute correspondence",
+   note=MACH_NOTE + " Source tie (Props/C06_src.v): the clock of the annealer's vanishing decay and the row of acceptance ratios it reads are "
+        "regenerated from DynamicalAnnealer.__call__ on every run (tools/py2coq.py); the clock is iteration // swap_interval of the global "
+        "iteration (no other parameter: a clear or a split cannot restart it), the fold over the sweeps with the generated clock is the "
+        "model's ladder, and the row read is the row the sweep of that iteration wrote.",
+   technique="Coq proof (history invariant + ghost-state simulation by induction over op lists) + vm_compute correspondence",
    ref="DESIGN.md section 3, C06"),
  'C08': dict(
    text="Machine-checked history invariant (retained arrays = suffix of everything recorded, len = iteration - lastclear, start triple after a "
